@@ -123,7 +123,17 @@ def report(prop, mod, outcomes, a, seed, t_start, partial=False):
         e = findings.get(fid)
         lines.append("KNOWN-FINDING: property=%s %s: %s" % (prop, fid, e.get("what", "")))
     vcount = 0
+    # one VIOLATION line per (function, obligation) -- the same failed obligation on several paths / case splits is one violation;
+    # confirmed replays first
+    violations.sort(key=lambda ur: 0 if (ur[1].get("replay") or {}).get("verdict") == "confirmed" else 1)
+    seen_v = set(); shown = []
     for unit, r in violations:
+        key = (r.get("function") or unit, r["name"].split(" [")[0])
+        if key in seen_v: continue
+        seen_v.add(key); shown.append((unit, r))
+    if len(shown) > 8:
+        lines.append("(%d distinct failed obligations; the first 8 are reported, all are in the evidence file)" % len(shown))
+    for unit, r in shown[:8]:
         vcount += 1
         rec = r.get("replay") or {"unit": unit, "obligation": r["name"], "verdict": "no-failing-input-found", "model": r.get("model"), "detail": r.get("detail")}
         rec["property"] = prop; rec["unit"] = unit; rec.setdefault("obligation", r["name"]); rec["function"] = r.get("function"); rec["solver_output"] = r.get("model"); rec["detail"] = r.get("detail")
